@@ -113,6 +113,7 @@ func newMux(dst string, option *ClientOption, init, dead wire, wireFn wireFn, wi
 	m.spool = newPool(option.BlockingPoolSize, dead, option.BlockingPoolCleanup, option.BlockingPoolMinSize, wireNoBgFn)
 	verifPool(m.dpool)
 	verifPool(m.spool)
+	verifMux(m)
 	return m
 }
 
